@@ -472,6 +472,38 @@ def gen_raise_sites():
             "Definition gen_raise_sites : list (string * string * string * list string) := [\n%s\n].\n" % ";\n".join(rows))
 
 
+# ---- declared units of every input and output of every component (the unit contract; C06, C08, C17) ----------------
+def gen_io_units():
+    root = os.path.join(REPO, "openaerostruct")
+    files = []
+    for d, _, fs in os.walk(root):
+        for f in fs:
+            if f.endswith(".py"):
+                rel = os.path.relpath(os.path.join(d, f), REPO)
+                if not any(rel.startswith(x) for x in RAISE_EXCLUDE):
+                    files.append(rel)
+    rows = []
+    for rel in sorted(files):
+        t, src = tree(rel)
+        for cls in [n for n in ast.walk(t) if isinstance(n, ast.ClassDef)]:
+            for call in [n for n in ast.walk(cls) if isinstance(n, ast.Call) and isinstance(n.func, ast.Attribute) and n.func.attr in ("add_input", "add_output")
+                         and isinstance(n.func.value, ast.Name) and n.func.value.id in ("self", "ivc", "indep_var_comp")]:
+                if not call.args:
+                    name = next((ast.unparse(k.value) for k in call.keywords if k.arg == "name"), "?")
+                else:
+                    name = ast.unparse(call.args[0])
+                units = next((ast.unparse(k.value) for k in call.keywords if k.arg == "units"), "-")
+                rows.append((rel.replace("openaerostruct/", ""), cls.name, call.func.attr[4:], name, units))
+
+    def q(x):
+        return '"' + x.replace('"', '""') + '"'
+    body = ";\n".join("  (%s, %s, %s, %s, %s)" % tuple(q(x) for x in r) for r in rows)
+    return ("(* GENERATED by harness/translate.py - do not edit: the declared units of every add_input / add_output of every class of the\n   package, as source text (\"-\" = no units keyword) *)\n"
+            "From Coq Require Import String List.\nImport ListNotations.\nOpen Scope string_scope.\n"
+            "Definition gen_io_units : list (string * string * string * string * string) := [\n%s\n].\n" % body)
+
+
+EXTRA.append(("IOUnits.v", ["C06", "C08", "C17"], gen_io_units))
 EXTRA.append(("RaiseSites.v", ["C20"], gen_raise_sites))
 
 
